@@ -1,4 +1,4 @@
-(** [analyzer::analyze] (analyzer.rs 1899-1921): the passes of Passes.v in sequence,
+(** [analyzer::analyze] (analyzer.rs 1909-1931): the passes of Passes.v in sequence,
     stopping at the first pass that reports a diagnostic (the [?] on each call) or
     panics; and the printer of analyzed files used by the oracle. *)
 From Coq Require Import NArith List String Ascii Bool.
@@ -43,38 +43,38 @@ Definition err_or_p (r : pres diags) : ares unit :=
 Definition no_diag {A} (r : pres A) : ares A :=
   match r with POk a => Accepted a | PPanic s => Panicked s end.
 
-(** [analyze] (1899-1921), returning the schema as well (for cross-checks in the oracle). *)
+(** [analyze] (1909-1931), returning the schema as well (for cross-checks in the oracle). *)
 Definition analyze_with_schema (file : file) : ares (Ast.file * aschema) :=
-  let? _ := err_or (scope_new file) in                                  (* 1900 *)
-  let? file :=                                                          (* 1901 *)
+  let? _ := err_or (scope_new file) in                                  (* 1910 *)
+  let? file :=                                                          (* 1911 *)
     match check_decl_identifiers file with
     | PPanic s => Panicked s
     | POk (inl ds) => Rejected ds
     | POk (inr file) => Accepted file
     end in
-  let? _ :=                                                             (* 1902 *)
+  let? _ :=                                                             (* 1912 *)
     match scope_new file with
     | [] => Accepted tt
-    | _ => Panicked "1902:analyze:Scope::new(&file).unwrap()"
+    | _ => Panicked "1912:analyze:Scope::new(&file).unwrap()"
     end in
-  let? _ := err_or (check_field_identifiers file) in                    (* 1903 *)
-  let? _ := err_or (check_enum_declarations file) in                    (* 1904 *)
-  let? _ := err_or (check_size_fields file) in                          (* 1905 *)
-  let? _ := err_or (check_fixed_fields file) in                         (* 1906 *)
-  let? _ := err_or (check_payload_fields file) in                       (* 1907 *)
-  let? _ := err_or (check_array_fields file) in                         (* 1908 *)
-  let? _ := err_or (check_padding_fields file) in                       (* 1909 *)
-  let? _ := err_or (check_checksum_fields file) in                      (* 1910 *)
-  let? _ := err_or_p (check_optional_fields file) in                    (* 1911 *)
-  let? _ := err_or_p (check_group_constraints file) in                  (* 1912 *)
-  let? file := no_diag (inline_groups_r file) in                        (* 1913 *)
-  let? file := no_diag (desugar_flags_r file) in                        (* 1914 *)
-  let? _ := err_or (scope_new file) in                                  (* 1915 *)
-  let? _ := err_or_p (check_decl_constraints file) in                   (* 1916 *)
-  let? schema := no_diag (schema_new file) in                           (* 1917 *)
-  let? _ := err_or_p (check_field_offsets file schema) in               (* 1918 *)
-  let? _ := err_or_p (check_decl_sizes file schema) in                  (* 1919 *)
-  Accepted (file, schema).                                                   (* 1920 *)
+  let? _ := err_or (check_field_identifiers file) in                    (* 1913 *)
+  let? _ := err_or (check_enum_declarations file) in                    (* 1914 *)
+  let? _ := err_or (check_size_fields file) in                          (* 1915 *)
+  let? _ := err_or (check_fixed_fields file) in                         (* 1916 *)
+  let? _ := err_or (check_payload_fields file) in                       (* 1917 *)
+  let? _ := err_or (check_array_fields file) in                         (* 1918 *)
+  let? _ := err_or (check_padding_fields file) in                       (* 1919 *)
+  let? _ := err_or (check_checksum_fields file) in                      (* 1920 *)
+  let? _ := err_or_p (check_optional_fields file) in                    (* 1921 *)
+  let? _ := err_or_p (check_group_constraints file) in                  (* 1922 *)
+  let? file := no_diag (inline_groups_r file) in                        (* 1923 *)
+  let? file := no_diag (desugar_flags_r file) in                        (* 1924 *)
+  let? _ := err_or (scope_new file) in                                  (* 1925 *)
+  let? _ := err_or_p (check_decl_constraints file) in                   (* 1926 *)
+  let? schema := no_diag (schema_new file) in                           (* 1927 *)
+  let? _ := err_or_p (check_field_offsets file schema) in               (* 1928 *)
+  let? _ := err_or_p (check_decl_sizes file schema) in                  (* 1929 *)
+  Accepted (file, schema).                                                   (* 1930 *)
 
 Definition analyze (file : file) : aresult :=
   match analyze_with_schema file with
